@@ -1310,3 +1310,30 @@ func (in *Interp) assign(n *Assign, e *env) (Val, *ctl) {
 	}
 	return nil, unspec("assign target %T", n.L)
 }
+
+// CloneVal deep-copies a value.
+func CloneVal(v Val) Val {
+	switch x := v.(type) {
+	case *ListV:
+		n := &ListV{Elems: make([]Val, len(x.Elems))}
+		for i, e := range x.Elems {
+			n.Elems[i] = CloneVal(e)
+		}
+		return n
+	case *ObjV:
+		n := &ObjV{Keys: append([]string{}, x.Keys...), F: map[string]Val{}, Any: x.Any}
+		for k, f := range x.F {
+			n.F[k] = CloneVal(f)
+		}
+		return n
+	case *OptV:
+		if x.Some {
+			return &OptV{Some: true, V: CloneVal(x.V)}
+		}
+		return &OptV{}
+	case *RangeV:
+		c := *x
+		return &c
+	}
+	return v
+}
